@@ -634,10 +634,44 @@ type loc struct {
 	heap string
 	ref  string // "" for scalars (globals, ghost variables)
 	all  bool   // whole heap
+	skip bool   // the location is reached through a nil pointer: nothing is written
+}
+
+// derefsNil: the location expression dereferences the literal nil (e.g. ctx.Hit with ctx == nil).
+func (e *Env) derefsNil(x *CE) bool {
+	switch x.Op {
+	case "field":
+		b := e.tr(x.Args[0], true)
+		if b.S == "0" {
+			return true
+		}
+		return e.derefsNil(x.Args[0])
+	case "call":
+		if x.Args[0].Op == "ident" && x.Args[0].Name == "allof" {
+			return false
+		}
+		for _, a := range x.Args[1:] {
+			if a.Op != "type" && e.derefsNil(a) {
+				return true
+			}
+		}
+	case "index":
+		return e.derefsNil(x.Args[0])
+	}
+	return false
 }
 
 // locOf evaluates an assigns-location.
 func (e *Env) locOf(x *CE) loc {
+	if e.derefsNil(x) {
+		l := e.locOfInner(x)
+		l.skip = true
+		return l
+	}
+	return e.locOfInner(x)
+}
+
+func (e *Env) locOfInner(x *CE) loc {
 	g := e.g
 	switch x.Op {
 	case "field":
@@ -756,6 +790,9 @@ func (f *frame) applyContract(fs *FuncSpec, actuals []CV, res *types.Tuple, st *
 	byHeap := map[string][]loc{}
 	for _, a := range asg {
 		l := envPre.locOf(a)
+		if l.skip {
+			continue
+		}
 		byHeap[l.heap] = append(byHeap[l.heap], l)
 		if strings.HasPrefix(l.heap, "Mh.") {
 			mv := "Mv." + strings.TrimPrefix(l.heap, "Mh.")
